@@ -15,8 +15,9 @@ bit length); `DbOK kf db` — the nodes of the old level left to right (`NodeOK`
 `1 ≤ prefix_compressed ≤ n`, compressed keys share the prefix, stored lengths as `BranchNodeBuilder::push` writes them;
 index separators ascend, keys of a node between its separator and the next one); `ChOK lo cs` — the ascending change list
 (keys in `[lo, 2^256)`, `Some(pn)` / `None`); `KFOK kf` — what the proofs ask of `prefix_len` / `separator_len`
-(`kfReal_ok`: the real ones satisfy it); `kf.canon` — `false`: `push_chunk` as the code has it, `true`: with the stored
-length the gauge counted (finding F20); `runWorker` — `BranchUpdater::new`, `reset_base` to the node covering the next
+(`kfReal_ok`: the real ones satisfy it); `kf.canon` — `false`: the code as it is, `true`: with the repair of finding F20
+suggested in `notes/Q12_F20_suggested_fix.diff` (a first separator shorter than the base's prefix is never kept as part
+of a chunk; the mirror with the flag agrees with the code with the patch on 6·10⁵ differential lines); `runWorker` — `BranchUpdater::new`, `reset_base` to the node covering the next
 key, `ingest` while in scope, `digest` otherwise, `reset_base` to the next node on `NeedsMerge`, `digest` until
 `Finished`; `none` = a panic site was reached.
 -/
@@ -151,7 +152,8 @@ theorem T1_F20_overfull_counterexample :
       some [(122, 33, 4094)] ∧ BODY = 4086 := by
   decide +kernel
 
-/-- with the stored length the gauge counted (`kf.canon = true`) the same input gives a node of 4067 bytes -/
+/-- with the suggested repair (`kf.canon = true`: the short first separator becomes an `Insert`) the same input gives a
+node of 4067 bytes -/
 example :
     (runWorker { kfReal with canon := true } (f20Db 120) [(f20Outsider, some 5)]).map
       (fun r => r.1.map fun o => match o with | .new p => (p.node.items.length, p.node.pl, p.node.body) | .old _ => (0, 0, 0)) =
